@@ -75,7 +75,7 @@ func (r *Runner) FirstRead(kind string, last1 []types.Transaction, last2 []types
 		if len(last2) == 0 {
 			return ""
 		}
-		c := last2[len(last2)-1].DeepCopy()
+		c := CopyV2(last2[len(last2)-1])
 		asked2 = &c
 		var set []types.V2Transaction
 		_, set, setErr = cm.V2TransactionSet(lastTip, c)
